@@ -39,6 +39,8 @@ def c15_schema(tier, rng):
                 "genomic_region": None}
         for k in range(min(len(wt), len(rt))):
             d = rt[k]["dest"]
+            if not wt[k]["src"]:
+                continue
             if d in want and want[d] is not None:
                 obls.append(("BasicReadAssignment.deserialize_from_read_assignment.schema.field.%s" % d,
                              wt[k]["src"][0] == want[d], "abridged reader stores %s from the token written as %s" % (d, wt[k]["src"])))
@@ -109,6 +111,11 @@ def make_read_assignment(rng):
         a = p + rng.randint(1, 50); b = a + rng.randint(0, 90); ex.append((a, b)); p = b
     ra.exons = ex
     ra.corrected_exons = list(ex)
+    if len(ex) > 1 and rng.random() < .3:
+        ra.corrected_exons = ex[1:] if rng.random() < .5 else ex[:-1]          # a fake terminal exon was dropped
+    elif rng.random() < .2:
+        a, b = ex[-1]
+        ra.corrected_exons = ex[:-1] + [(a, a), (a + 2, max(a + 2, b))] if b >= a + 2 else list(ex)   # an intron was restored
     from src.common import junctions_from_blocks
     ra.corrected_introns = junctions_from_blocks(ra.corrected_exons)
     ra.multimapper, ra.polyA_found, ra.cage_found = (rng.random() < .5, rng.random() < .5, rng.random() < .5)
